@@ -90,8 +90,104 @@ func blockPos(b *ssa.BasicBlock) token.Pos {
 }
 
 // loopSpecFor finds the loop clauses: the root contract may address loops of inlined callees as "<callee>.<k>".
+// loopRemap: when the loops of the root function no longer are the ones the lock recorded (an edit removed a loop or moved
+// it into a helper), the `loop k` clauses follow the loops by the source line of their head. cur2locked maps the ordinals
+// of the current loops to the recorded ones (-1: a loop the lock does not know); orphans are recorded loops that are no
+// longer in the function, by header line.
+type loopRemap struct {
+	cur2locked map[int]int
+	orphans    map[string][]int // header line -> recorded ordinals, in order
+}
+
+func (ex *Exec) rootLoopRemap() *loopRemap {
+	if ex.remapDone {
+		return ex.remap
+	}
+	ex.remapDone = true
+	if ex.prog.Lock == nil || ex.contract == nil {
+		return nil
+	}
+	e, ok := ex.prog.Lock[lockKeyOf(ex.root)]
+	if !ok || len(e.Loops) == 0 {
+		return nil
+	}
+	cur := loopHeaders(ex.prog, ex.root)
+	same := len(cur) == len(e.Loops)
+	if same {
+		for i := range cur {
+			if cur[i] != e.Loops[i] {
+				same = false
+			}
+		}
+	}
+	if same {
+		return nil
+	}
+	// longest common subsequence of the two header lists
+	n, m := len(cur), len(e.Loops)
+	L := make([][]int, n+1)
+	for i := range L {
+		L[i] = make([]int, m+1)
+	}
+	for i := n - 1; i >= 0; i-- {
+		for j := m - 1; j >= 0; j-- {
+			if cur[i] == e.Loops[j] && cur[i] != "" {
+				L[i][j] = L[i+1][j+1] + 1
+			} else if L[i+1][j] >= L[i][j+1] {
+				L[i][j] = L[i+1][j]
+			} else {
+				L[i][j] = L[i][j+1]
+			}
+		}
+	}
+	rm := &loopRemap{cur2locked: map[int]int{}, orphans: map[string][]int{}}
+	for i := range cur {
+		rm.cur2locked[i] = -1
+	}
+	matched := map[int]bool{}
+	for i, j := 0, 0; i < n && j < m; {
+		switch {
+		case cur[i] == e.Loops[j] && cur[i] != "":
+			rm.cur2locked[i] = j
+			matched[j] = true
+			i++
+			j++
+		case L[i+1][j] >= L[i][j+1]:
+			i++
+		default:
+			j++
+		}
+	}
+	for j, h := range e.Loops {
+		if !matched[j] && h != "" {
+			rm.orphans[h] = append(rm.orphans[h], j)
+		}
+	}
+	ex.remap = rm
+	ex.note("the loops of " + relName(ex.root) + " differ from the ones recorded in the lock: loop clauses are attached by the source line of the loop head")
+	return rm
+}
+
 func (ex *Exec) loopSpecFor(fr *Frame, li *loopInfo) *LoopSpec {
 	key := fmt.Sprint(li.ordinal)
+	if ex.contract != nil {
+		if rm := ex.rootLoopRemap(); rm != nil {
+			if fr.fn == ex.root {
+				k, ok := rm.cur2locked[li.ordinal]
+				if !ok || k < 0 {
+					return nil
+				}
+				return ex.contract.Loops[fmt.Sprint(k)]
+			}
+			if fr.sole {
+				// a loop of the root function that an edit moved into this new helper
+				h := strings.Join(strings.Fields(sourceLine(ex.prog, li.pos)), "")
+				if ks := rm.orphans[h]; len(ks) > 0 {
+					return ex.contract.Loops[fmt.Sprint(ks[0])]
+				}
+			}
+		}
+	}
 	if fr.fn != ex.root && ex.contract != nil {
 		if ls, ok := ex.contract.Loops[relName(fr.fn)+"."+key]; ok {
 			return ls
